@@ -176,7 +176,7 @@ prop("C10", level="other",
      level_text="generators, filter chains and the only-removes part of four filters proved; the keep-the-best and counting clauses need "
                 "permutation / counting lemmas (induction): bounded stand-in", level_note=BOUNDED_NOTE,
      assumptions=["NearestBetterClustering.cluster returns individuals of the clustered population (trusted; C15 is checked separately)",
-                  "populated demes: every deme's current population is non-empty (class invariant of the deme classes)"],
+                  ],
      undecided_subclauses=["keep-the-best for DemeLimit / LevelLimit", "LevelLimit fills exactly the free slots", "SkipSameSprout (NumPy)",
                            "NBCGeneratorWithLocalMethod is not under contract"],
      bounded_parts=["bounded::C10"])
